@@ -3,6 +3,7 @@ module verif
 go 1.23.4
 
 require (
+	github.com/aead/siphash v1.0.1
 	github.com/anishathalye/porcupine v1.3.0
 	github.com/gcash/bchd v0.20.0
 	github.com/gcash/bchutil v0.0.0
@@ -12,7 +13,6 @@ require (
 
 require (
 	github.com/OpenBazaar/jsonpb v0.0.0-20171123000858-37d32ddf4eef // indirect
-	github.com/aead/siphash v1.0.1 // indirect
 	github.com/btcsuite/go-socks v0.0.0-20170105172521-4720035b7bfd // indirect
 	github.com/dchest/siphash v1.2.3 // indirect
 	github.com/gcash/bchlog v0.0.0-20180913005452-b4f036f92fa6 // indirect
